@@ -72,6 +72,19 @@ CHECKS = {
              "(integrator schema is C06). Outside: first-order realisation of (da, di, dOmega) beyond the tangential identity; "
              "off-grid continuous-burn quadrature.",
         ref="DESIGN.md section 3 C17", technique=TECH),
+    "C08": dict(
+        text="AnalyticalPropagator.iter/_iter, Ephem.iter (dates / own points / re-sampling step / strict range / negative step) and "
+             "the control skeleton of KeplerNum._iter (with _make_step = 'advance by exactly step' and the interpolation order bounded to "
+             "3) run on the real Date class with symbolic start, span and step: the yielded dates are exactly start + k*step, in order, "
+             "first to last inclusive, none beyond stop, for forward and backward ranges, stop given as date or timedelta, start "
+             "anywhere w.r.t. the epoch; each yielded state is one propagate(date) of that date; listeners are cleared once at the "
+             "start; the table's own points are yielded as copies. Bounded number of points per run (unwinding assertion). The "
+             "three KeplerNum iteration defects found (backward range, span shorter than the interpolation order, a point beyond "
+             "stop) are listed in known_findings.json.",
+        note="Trusted: z3; Date model of C03; propagate() is an uninterpreted record of the requested instant (purity of the "
+             "propagators' propagate() itself is by construction of their orbit setters, not claimed here). Outside: numeric equality of "
+             "re-sampled numerical states with direct propagation.",
+        ref="DESIGN.md section 3 C08", technique=TECH),
     "C09": dict(
         text="Interp.__call__/_prev_idx/_linear/_lagrange and DatedInterp.__call__ are executed symbolically on tables of symbolic "
              "reals held in object-dtype arrays (the real numpy tile/repeat/diag/mask/prod/@ code runs): all paths of the binary "
